@@ -56,7 +56,7 @@ def volt_patches(proxy=None, extra=None, opener=None, globber=None):
         (Q, dict(xp=proxy, np=proxy, **b)),
         (DS, dict(xp=proxy, **b)),
         (A, dict(xp=proxy, **b)),
-        (WF, dict(xp=proxy, np=proxy, **b)),
+        (WF, dict(xp=proxy, np=proxy, **({'open': opener} if opener else {}), **b)),
         (RU, dict(np=proxy, **({'open': opener} if opener else {}), **b)),
         (LU, dict(np=proxy, **b)),
     ]
